@@ -57,7 +57,10 @@ SHAPE_TIER = {"quick": [(3, 3), (1, 5), (4, 5), (7, 2), (1, 1)],
 # that anything remembered under a too-coarse key (shape, object identity)
 # shows up as a history dependence
 OPS = ["holo", "holo-shifted", "holo-moved", "field", "intensity", "subset",
-       "update", "holo-subset", "subimage", "scatmat"]
+       "update", "holo-subset", "subimage", "scatmat", "field-veryfar"]
+# "field-veryfar": a point 3 mm from the sphere, beyond the range of the
+# Bessel routine behind the default Mie options (its own value is a recorded
+# finding of C02 and is not compared); what follows it must not notice
 
 
 def cases(tier, seed):
@@ -125,6 +128,8 @@ def cases(tier, seed):
         refs[name] = val if st == "ok" else "FAILED:%s:%r" % (st, val)
     for n in range(1, L + 1):
         for seq in itertools.product(range(len(ops)), repeat=n):
+            if n == 3 and any(ops[i] == "field-veryfar" for i in seq):
+                continue
             out.append({"id": "hist:" + ">".join(ops[i] for i in seq),
                         "kind": "history", "seq": [ops[i] for i in seq],
                         "ref": {ops[i]: refs[ops[i]] for i in seq}})
@@ -492,6 +497,29 @@ def _run_lenscounts(case, ck):
                     e <= 1e-11, "Lens: the values at %d locations "
                     "(starting at #%d) differ by %.2e from the same "
                     "locations inside a %d-point call" % (cnt, start, e, n))
+    # locations near the axis evaluated alone and together with locations
+    # far from it (10-15 length units off-axis)
+    near = np.array([[1.0, 0.9], [1.4, 1.1], [0.2, 2.0]])
+    farp = np.array([[13.0, 2.0], [-9.0, -10.0], [1.0, 15.9]])
+
+    def run_pts(P):
+        with warnings.catch_warnings():
+            warnings.simplefilter("ignore")
+            ck.trans += 1
+            return _holo(hp.detector_points(x=P[:, 0], y=P[:, 1], z=0.0),
+                         sph, Lens(0.8, Mie(False, False), 24, 24)).values
+    alone = run_pts(near)
+    mixed = run_pts(np.vstack([farp[:1], near, farp[1:]]))
+    e = float(np.abs(mixed[1:4] - alone).max())
+    ck.metric("lens-point-counts", e)
+    ck.true("point-count-independent", e <= 1e-11, "Lens: the values at "
+            "locations near the axis differ by %.2e when locations far from "
+            "the axis are evaluated in the same call" % e)
+    far_alone = run_pts(farp)
+    e = float(np.abs(mixed[[0, 4, 5]] - far_alone).max())
+    ck.true("point-count-independent", e <= 1e-11, "Lens: the values at "
+            "locations far from the axis differ by %.2e when evaluated "
+            "together with near ones" % e)
     # 1 x N and N x 1 grids
     for shape in ((1, 1), (1, 257), (257, 1)):
         g = H.det_grid(shape, 0.01)
@@ -644,6 +672,15 @@ def _op(name):
         r = calc_holo(subimage(det, (2, 2), 2), sc, theory=th, **OPT)
     elif name == "scatmat":
         r = calc_scat_matrix(det, sc, H.NMED, H.WL, theory=th)
+    elif name == "field-veryfar":
+        import holopy as hp
+        far = hp.detector_points(x=np.array([3000.0, 3000.1]),
+                                 y=np.array([10.0, -20.0]), z=0.0)
+        try:
+            calc_field(far, sc, theory=th, **OPT)
+        except Exception:
+            pass
+        return b"not-compared"
     else:
         raise KeyError(name)
     return np.ascontiguousarray(r.values).tobytes() + \
